@@ -53,8 +53,9 @@ FINDING (reported as violation key `max_xos:lower-bound:subadditive`): `compute_
 game is expected to be subadditive and monotone increasing"; the pinned game `PIN10` (n = 10, monotone, subadditive,
 singletons ≥ 1, values multiples of 1/1024) gets, with the DEFAULT parameters, approx(341) = 1.3212… > v(341) =
 1.2265625, so the result is not a lower bound and `mul_factor_to_approximation(game, approx)` raises AssertionError.
-`PIN6` is the same phenomenon at n = 6 with alpha = beta = 1, eps = 1/8 (the instance decided in Lean:
-`ICG.Mul.lower_bound_fails_subadditive`).  The marginal-contribution vector is an XOS clause only for submodular games.
+`PIN6` is the same phenomenon at n = 6 with alpha = beta = 1, eps = 1/8.  Both instances are decided in Lean on the
+model (`ICG.Mul.lower_bound_fails_subadditive`, `ICG.Mul.lower_bound_fails_default`); for monotone SUBMODULAR games the
+lower bound is proved (`ICG.Mul.maxXos_lower_bound_submodular`).  The marginal-contribution vector is an XOS clause only for submodular games.
 
 "Non-trivial" (`res.nontrivial`): factor — success, n ≥ 2, ≥ 3 distinct ratios and a unique maximiser; xos / maxsub —
 game not invariant under any transposition of players, coalition with ≥ 2 players (maxsub: ≥ 2 passes of the while
@@ -163,6 +164,23 @@ def compare(want: str, got: str) -> bool:
         gi, _, gv = got.partition(" ")
         return gi == ids and compare("V~" + vec, gv)
     return want == got
+
+
+DELTA = Fraction(1, 2 ** 30)
+
+
+def add_guarded(script, post, head: str, tail: str, eps: Fraction, impl: str, ctx) -> None:
+    """Float-tie guard for a threshold schedule that float64 does not reproduce exactly.  The model is asked at eps·(1−δ),
+    eps and eps·(1+δ) (δ = 2^-30, far above the accumulated rounding of the schedule, far below anything structural).
+    Every comparison the loop makes is monotone in eps along a fixed trajectory, so if the three answers coincide the
+    answer is the same for every schedule in between — including the rounded float64 one — and the real answer must equal
+    it; if they differ, a marginal contribution sits within 2^-30 of a limit and the real answer must be one of the three
+    (counted as `float-near-tie`)."""
+    idx = []
+    for e in (eps * (1 - DELTA), eps, eps * (1 + DELTA)):
+        script.add(head + rs(e) + tail, None, ctx)
+        idx.append(len(script) - 1)
+    post.append((idx, impl, ctx))
 
 
 def fvec(xs) -> str:
@@ -354,7 +372,7 @@ def ratios_rounded(num, den):
     return [float(F(a) / F(b)) for a, b in zip(num, den)]
 
 
-def run_factor(tier, budget, rnd, res, script):
+def run_factor(tier, budget, rnd, res, script, rnd_no=0):
     from incomplete_cooperative.multiplicative.multiplicative_factor import (mul_factor_lower_upper_bound, mul_factor_to_approximation,
                                                                              mul_factor_to_lower_bound, mul_factor_upper_to_approximation)
     nmax = 5 if tier == "quick" else 7
@@ -363,7 +381,6 @@ def run_factor(tier, budget, rnd, res, script):
         N = 2 ** n
         for t in range(reps if n <= 5 else reps // 4):
             if not budget.ok():
-                res.notes.append(f"factor: budget exhausted at n={n} case {t}")
                 return
             # in-domain base: 0 < a ≤ lo ≤ v ≤ hi on rows 1.., row 0 is zero (or junk)
             lo = [dy(rnd, 1, 40) for _ in range(N)]
@@ -477,7 +494,7 @@ def run_factor(tier, budget, rnd, res, script):
 # ------------------------------------------------------------------------------------------------
 # k / r values
 
-def run_kr(tier, budget, rnd, res, script):
+def run_kr(tier, budget, rnd, res, script, rnd_no=0):
     from incomplete_cooperative.multiplicative.max_xos_approximation import _get_k_r_values
     ns = list(range(0, 65 if tier == "quick" else 400)) + [rnd.randrange(65, 10 ** 6) for _ in range(20 if tier == "quick" else 200)]
     ns += [4 ** k + d for k in range(1, 10) for d in (-1, 0, 1)]
@@ -508,7 +525,7 @@ def gen_game(rnd, n, fams=("sam", "cov", "bud", "stair", "rnd")):
     return fam, FAMILIES[fam](rnd, n)
 
 
-def run_xos(tier, budget, rnd, res, script):
+def run_xos(tier, budget, rnd, res, script, rnd_no=0):
     from incomplete_cooperative.coalitions import Coalition
     from incomplete_cooperative.multiplicative.max_xos_approximation import _approx_xos_subroutine
     nmax = 6 if tier == "quick" else 8
@@ -517,7 +534,6 @@ def run_xos(tier, budget, rnd, res, script):
         N = 2 ** n
         for t in range(reps):
             if not budget.ok():
-                res.notes.append(f"xos: budget exhausted at n={n}")
                 return
             fam, v = gen_game(rnd, n)
             if rnd.random() < 0.3:
@@ -587,7 +603,7 @@ def maxsub_oracle(res, replay, n, v, c, size, out):
             break
 
 
-def run_maxsub(tier, budget, rnd, res, script):
+def run_maxsub(tier, budget, rnd, res, script, post, rnd_no=0):
     from incomplete_cooperative.coalitions import Coalition
     from incomplete_cooperative.multiplicative.max_xos_approximation import _max_subroutine
     nmax = 6 if tier == "quick" else 8
@@ -596,7 +612,6 @@ def run_maxsub(tier, budget, rnd, res, script):
         N = 2 ** n
         for t in range(reps):
             if not budget.ok():
-                res.notes.append(f"maxsub: budget exhausted at n={n}")
                 return
             fam, v = gen_game(rnd, n)
             known = [True] * N
@@ -624,6 +639,7 @@ def run_maxsub(tier, budget, rnd, res, script):
             res.count(f"maxsub:n={n}")
             replay = {"kind": "maxsub", "n": n, "known": kbits(known), "values": [rs(x) for x in v], "coalition": c,
                       "size": size if isinstance(size, int) else {"k": k}, "eps": rs(eps)}
+            ex = True
             if r[0] == "hang":
                 res.violation("_max_subroutine did not return", replay, key="maxsub:hang")
                 continue
@@ -641,7 +657,12 @@ def run_maxsub(tier, budget, rnd, res, script):
                 impl = r[0]
                 if kind == "ok":
                     res.violation("_max_subroutine raised on an in-domain input", dict(replay, outcome=repr(r)), key="maxsub:in-domain-raises")
-            script.add(f"mul maxsub {table_tok(n, known, v, v)} {c} {rs(sq)} {rs(eps)}", impl, {"kind": "maxsub", "case": replay, "family": fam})
+            line = f"mul maxsub {table_tok(n, known, v, v)} {c} {rs(sq)} "
+            ctx = {"kind": "maxsub", "case": replay, "family": fam}
+            if r[0] == "ok" and c and not ex:
+                add_guarded(script, post, line, "", eps, impl, ctx)
+            else:
+                script.add(line + rs(eps), impl, ctx)
             if t == 0 and n == 4:
                 res.sample({"maxsub": replay, "result": impl})
 
@@ -692,17 +713,15 @@ def approx_oracle(res, replay, n, v, vals, cands, alpha, beta, key):
                             return
 
 
-def run_maxxos(tier, budget, rnd, res, script, only=None):
+def run_maxxos(tier, budget, rnd, res, script, post, rnd_no=0, only=None):
     from incomplete_cooperative.multiplicative import max_xos_approximation as M
     from incomplete_cooperative.multiplicative.multiplicative_factor import mul_factor_to_approximation
     nmax = 6 if tier == "quick" else 8
     reps = 14 if tier == "quick" else 120
     cases = []
-    try:
+    if rnd_no == 0:
         cases.append(("pin10", 10, pin10(), F(ALPHA0), F(1), F(0.05)))
-    except Exception as e:  # noqa: BLE001
-        res.notes.append(f"pinned n=10 game unavailable: {e!r}")
-    cases.append(("pin6", 6, list(PIN6), F(1), F(1), F(1, 8)))
+        cases.append(("pin6", 6, list(PIN6), F(1), F(1), F(1, 8)))
     for n in range(1, nmax + 1):
         for t in range(reps if n <= 6 else reps // 3):
             fam, v = gen_game(rnd, n, ("sam", "cov", "bud", "stair", "cov", "bud"))
@@ -716,10 +735,21 @@ def run_maxxos(tier, budget, rnd, res, script, only=None):
                 v[1 << rnd.randrange(n)] = F(1, 2)               # a singleton below 1 → err:assert
                 fam += "-assert"
             cases.append((fam, n, v, alpha, beta, eps))
-    cases.append(("n0", 0, [F(0)], F(1), F(1), F(1, 4)))
+    if rnd_no == 0:
+        cases.append(("n0", 0, [F(0)], F(1), F(1), F(1, 4)))
+        # FINDING 2: beta < 1/2 — the candidate loop repeats its state for ever (the model answers err:other)
+        v3 = [F(x) for x in (0, 4, 1, 4, 2, 4, 2, 5)]
+        g3 = real_game(3, v3)
+        rh = guarded(M.compute_max_xos_approximation, g3, 4.0, 0.125, 0.25, seconds=1.5)
+        res.evaluations += 1
+        res.count(f"maxxos:beta<1/2:outcome:{rh[0]}")
+        rp = {"kind": "maxxos", "family": "beta<1/2", "n": 3, "values": [rs(x) for x in v3], "alpha": "4", "beta": "1/8", "eps": "1/4"}
+        script.add(f"mul maxxos {game_tok(3, v3)} 4 1/8 1/4", "err:other" if rh[0] == "hang" else "returned:" + rh[0], {"kind": "maxxos", "case": rp})
+        if rh[0] == "hang":
+            res.violation("compute_max_xos_approximation does not return for beta < 1/2 (the while loop of a cell appends the same empty "
+                          "candidate for ever): n = 3, v = (0,4,1,4,2,4,2,5), alpha = 4, beta = 1/8, eps = 1/4", rp, key="max_xos:no-return:beta-below-half")
     for (fam, n, v, alpha, beta, eps) in cases:
         if not budget.ok():
-            res.notes.append("maxxos: budget exhausted")
             return
         N = 2 ** n
         g = real_game(n, v)
@@ -748,8 +778,15 @@ def run_maxxos(tier, budget, rnd, res, script, only=None):
                 res.violation("queried ids are not a sorted duplicate-free list of non-empty coalitions", replay, key="max_xos:queried")
         else:
             implc = rc[0]
-        if not tie:
-            script.add(f"mul cands {T} {rs(alpha)} {rs(beta)} {rs(eps)}", implc, {"kind": "cands", "case": replay})
+        oracle_only = fam.endswith("-scaled") or fam.endswith("-scaled-assert")
+        if oracle_only:
+            res.count("maxxos:oracle-only(scaled)")
+        guarded_eps = eps.denominator > 64                     # 0.05: the schedule is not exact in float64
+        if not tie and not oracle_only:
+            if guarded_eps and rc[0] == "ok":
+                add_guarded(script, post, f"mul cands {T} {rs(alpha)} {rs(beta)} ", "", eps, implc, {"kind": "cands", "case": replay})
+            else:
+                script.add(f"mul cands {T} {rs(alpha)} {rs(beta)} {rs(eps)}", implc, {"kind": "cands", "case": replay})
         # approximation on the real candidates and on synthetic ones
         arrays = []
         if rc[0] == "ok":
@@ -778,7 +815,8 @@ def run_maxxos(tier, budget, rnd, res, script, only=None):
                         res.nontrivial.add(("approx", what, n, tuple(v), show_array(lists), ua, beta))
             else:
                 impla = ra[0]
-            script.add(f"mul approx {T} {rs(ua)} {rs(beta)} {show_array(lists)}", impla, {"kind": "approx", "case": rp})
+            if not oracle_only:
+                script.add(f"mul approx {T} {rs(ua)} {rs(beta)} {show_array(lists)}", impla, {"kind": "approx", "case": rp})
         if only == "approx":
             continue
         # the composition
@@ -818,8 +856,11 @@ def run_maxxos(tier, budget, rnd, res, script, only=None):
             implm = rm[0]
             if "assert" not in fam and fam != "n0":
                 res.violation("compute_max_xos_approximation raised on an in-domain input", dict(replay, outcome=repr(rm)), key="max_xos:in-domain-raises")
-        if not tie:
-            script.add(f"mul maxxos {T} {rs(alpha)} {rs(beta)} {rs(eps)}", implm, {"kind": "maxxos", "case": replay})
+        if not tie and not oracle_only:
+            if guarded_eps and rm[0] == "ok":
+                add_guarded(script, post, f"mul maxxos {T} {rs(alpha)} {rs(beta)} ", "", eps, implm, {"kind": "maxxos", "case": replay})
+            else:
+                script.add(f"mul maxxos {T} {rs(alpha)} {rs(beta)} {rs(eps)}", implm, {"kind": "maxxos", "case": replay})
         if fam == "sam" and n == 3 and len(res.samples) < 6:
             res.sample({"maxxos": replay, "candidates": show_array(cl) if cl else None})
 
@@ -827,28 +868,43 @@ def run_maxxos(tier, budget, rnd, res, script, only=None):
 # ------------------------------------------------------------------------------------------------
 
 PARTS = {"factor": 0.2, "kr": 0.02, "xos": 0.1, "maxsub": 0.23, "maxxos": 0.45}
+RUNNERS = {"factor": run_factor, "kr": run_kr, "xos": run_xos, "maxsub": run_maxsub, "maxxos": run_maxxos}
 
 
 def run(tier: str, budget: Budget, rnd, arg) -> StreamResult:
     res = StreamResult(f"mul:{arg}")
     script = Script()
-    total = max(budget.left(), 1.0) * 0.85                     # keep a reserve for the driver
+    post: list = []
+    total = max(budget.left(), 1.0) * 0.8                      # keep a reserve for the driver
     parts = list(PARTS) if arg in ("X-mul", None, "") else [arg if arg != "approx" else "maxxos"]
+    cap = 12 if tier == "quick" else 40
     for part in parts:
         sub = Budget(min(budget.left(), total * PARTS.get(part, 1.0) / sum(PARTS[p] for p in parts)))
-        if part == "factor":
-            run_factor(tier, sub, rnd, res, script)
-        elif part == "kr":
-            run_kr(tier, sub, rnd, res, script)
-        elif part == "xos":
-            run_xos(tier, sub, rnd, res, script)
-        elif part == "maxsub":
-            run_maxsub(tier, sub, rnd, res, script)
-        elif part == "maxxos":
-            run_maxxos(tier, sub, rnd, res, script, only="approx" if arg == "approx" else None)
+        rounds = 0
+        while sub.ok() and rounds < cap:
+            if part == "maxxos":
+                run_maxxos(tier, sub, rnd, res, script, post, rounds, only="approx" if arg == "approx" else None)
+            elif part == "maxsub":
+                run_maxsub(tier, sub, rnd, res, script, post, rounds)
+            else:
+                RUNNERS[part](tier, sub, rnd, res, script, rounds)
+            rounds += 1
+            if part == "kr":
+                break
+        res.count(f"rounds:{part}", rounds)
     for b in script.diff(compare):
         res.disagree(f"{(b['ctx'] or {}).get('kind', '?')}: model ≠ implementation",
                      {"line": b["line"][:2000], "impl": (b["impl"] or "")[:600], "model": b["model"][:600], "ctx": b["ctx"], "kind": b["kind"]})
+    for (idx, impl, ctx) in post:
+        outs = [script.outs[i] for i in idx]
+        kind = ctx.get("kind", "?")
+        if len(set(outs)) == 1:
+            res.count(f"{kind}:guarded:stable")
+        else:
+            res.count(f"{kind}:guarded:float-near-tie")
+        if not any(compare(impl, o) for o in outs):
+            res.disagree(f"{kind}: model ≠ implementation (at eps·(1−δ), eps, eps·(1+δ))",
+                         {"line": script.lines[idx[1]][:2000], "impl": impl[:600], "model": [o[:300] for o in outs], "ctx": ctx, "kind": "mismatch"})
     return res
 
 
@@ -863,7 +919,9 @@ def replay(prop, payload):
         v = [F(a) for a in x["values"]]
         g = real_game(n, v)
         alpha, beta, eps = F(x["alpha"]), F(x["beta"]), F(x["eps"])
-        r = guarded(M.compute_max_xos_approximation, g, float(alpha), float(beta), float(eps), seconds=300)
+        r = guarded(M.compute_max_xos_approximation, g, float(alpha), float(beta), float(eps), seconds=5 if beta < F(1, 2) else 300)
+        if r[0] == "hang":
+            return True, "compute_max_xos_approximation did not return within the watchdog"
         if r[0] != "ok":
             return True, f"compute_max_xos_approximation: {r!r}"
         vals = r[1][1].get_values()
